@@ -5,6 +5,7 @@ go 1.21
 require (
 	github.com/anz-bank/golden-retriever v0.43.0
 	github.com/anz-bank/sysl v0.0.0
+	github.com/cornelk/hashmap v1.0.1
 	github.com/sirupsen/logrus v1.9.3
 	github.com/spf13/afero v1.11.0
 )
@@ -20,7 +21,6 @@ require (
 	github.com/arr-ai/hash v1.1.0 // indirect
 	github.com/arr-ai/wbnf v0.35.3 // indirect
 	github.com/cloudflare/circl v1.3.9 // indirect
-	github.com/cornelk/hashmap v1.0.1 // indirect
 	github.com/cpuguy83/go-md2man/v2 v2.0.4 // indirect
 	github.com/cyphar/filepath-securejoin v0.2.5 // indirect
 	github.com/davecgh/go-spew v1.1.1 // indirect
